@@ -583,7 +583,9 @@ class RecordContextMatcher:
 
             return getattr(obj, node.attr, NONE_OBJECT)
         elif isinstance(node, ast.BoolOp):
-            values = []
+            # Python semantics: `and` yields the first falsy operand, `or` the first truthy one, else the last
+            stop_on = isinstance(node.op, ast.Or)
+            value = None
             for expr in node.values:
                 try:
                     value = self.eval(expr)
@@ -592,12 +594,9 @@ class RecordContextMatcher:
                         value = False
                     else:
                         raise
-                value = bool(value)
-                values.append(value)
-            result = values.pop(0)
-            for value in values:
-                result = AST_OPERATORS[type(node.op)](result, value)
-            return result
+                if bool(value) == stop_on:
+                    return value
+            return value
         elif isinstance(node, ast.BinOp):
             left = self.eval(node.left)
             right = self.eval(node.right)
